@@ -57,11 +57,11 @@ BOUNDED = {
                   'bound': 'head-follow over the real HTTP front end in a context with and without an existing head, same topic appended in three '
                            'contexts; 14 topic names that start like a reserved path (cas / head / import / version) posted with a body, with and '
                            'without ?context=, then read back through GET /head'},
-    'restart_model': {'test': 'replays/suite/vx_restart_model.rs', 'props': ['C17', 'C16', 'C14', 'C19'],
+    'restart_model': {'test': 'replays/suite/vx_restart_model.rs', 'props': ['C17', 'C16', 'C14', 'C19', 'C18'],
                       'bound': 'one history on the real serve loops (handlers: plain / replaced while running / unregistered / dotted name; generators: one '
                                'running, one failed spawn; commands: one defined twice, one call), the store directory copied, the serve loops started '
                                'again on the copy; one context'},
-    'lifecycle_model': {'test': 'replays/suite/vx_lifecycle_model.rs', 'props': ['C16', 'C18', 'C19'],
+    'lifecycle_model': {'test': 'replays/suite/vx_lifecycle_model.rs', 'props': ['C16', 'C18', 'C19', 'C14'],
                         'bound': 'one lifecycle each on the real serve loops with real nu scripts: handler replace / unregister / invalid script / failing '
                                  'closure; generator with three strings, spawn without content, spawn for a known name, restart after stop; command with '
                                  'three values, failing call, invalid definition, unknown name, redefinition'},
